@@ -196,6 +196,9 @@ class Purity:
             'compute_burst_fraction': lambda: pd.DataFrame({'v': compute_burst_fraction(shapes, sig, fs, fr)}),
             'compute_burst_features': lambda: compute_burst_features(shapes, sig, **bf_kwargs()),
             'limit_df': lambda: limit_df(df, fs, start=0.4, stop=1.9),
+            # a window that drops no cycle at all (start before the first cycle, no stop) with re-indexing
+            'limit_df_keep_all': lambda: limit_df(df, fs, start=0.004),
+            'limit_df_keep_all_noreset': lambda: limit_df(df, fs, start=0.004, reset_indices=False),
             'epoch_df': lambda: pd.concat(epoch_df(df, len(sig), 300), axis=0),
             'drop_samples_df': lambda: drop_samples_df(df),
             'compute_features_2d': lambda: pd.concat(compute_features_2d(sigs2, fs, fr, compute_features_kwargs=gk, axis=0, n_jobs=1), axis=0),
